@@ -421,7 +421,7 @@ fn tokenize(src: &str) -> Option<Vec<Tok>> {
 pub fn spaces(tier: Tier) -> Vec<Box<dyn Space>> {
     let t = tier == Tier::Thorough;
     let mut text_hosts = Vec::new();
-    if let Ok(rd) = std::fs::read_dir("/repo/examples") {
+    if let Ok(rd) = std::fs::read_dir(format!("{}/examples", crate::util::repo_root())) {
         let mut files: Vec<_> = rd.flatten().map(|e| e.path()).collect();
         files.sort();
         for f in files {
